@@ -10,7 +10,7 @@ from ..impl.stubs import StubVersion
 from ..leanio import driver
 
 ID = "C16"
-LEAN_MODULES = ["SqliteDissect.Properties.C16"]
+LEAN_MODULES = ["SqliteDissect.Properties.C16", "SqliteDissect.Properties.C01Cell"]
 PAGE_SIZES = [512, 1024, 2048, 4096, 8192, 16384, 32768, 65536]
 RULE = ("real TableLeafCell / IndexLeafCell / IndexInteriorCell objects built over synthetic pages and overflow "
         "chains (stub version interface) for every payload size 0 .. maxLocal + 2(u-4) + 64: quick = exhaustive for "
